@@ -58,6 +58,7 @@ func (c Cipher) DecryptReader(key []byte, stream filesystem.Reader) (reader file
 // EncryptWriter create encrypt stream for AES GCM
 func (c Cipher) EncryptWriter(key []byte, stream filesystem.Writer) (writer filesystem.Writer, err error) {
 	if _, err = stream.Write(c.defaultCiperKey.ToBinary()); err != nil {
+		stream.Close()
 		return nil, err
 	}
 	return c.defaultCiper.EncryptWriter(key, stream)
